@@ -53,6 +53,10 @@ def module_schema(draw, names: Names, depth: int, max_depth: int, cfg: S.SchemaC
             ncomp = draw(st.sampled_from([1, 1, 2, 3]))
             # every path component is globally unique: no file/directory collisions
             path = [names.fresh(draw, module_component) for _ in range(ncomp)]
+            if ncomp >= 2 and draw(st.booleans()):
+                # same file name in different directories (directories stay unique): "a/common.fcp", "b/common.fcp",
+                # and a module called like the root file
+                path[-1] = draw(st.sampled_from(["common", "types", "main", "defs"]))
             sub = draw(module_schema(names, depth + 1, max_depth, cfg, extras, used_paths, type_names))
             decls.append(M.Mod(path, sub))
             inl = sub.inlined()
